@@ -241,6 +241,44 @@ theorem parse_print_select (proj : Proj) (rels : List String) (ws : List (Cond C
       parseSelect n (printQuery proj rels ws) = .ok { proj := proj, rels := rels, cond := whereCond ws } :=
   parseSelect_print_aux proj rels ws hp hw
 
+/-- lexer level ("numeric, string, date and regex operands … parsing the text of any condition
+tree returns that tree", the character half): for every list of tokens from the printer's alphabet
+— keywords, operators, parentheses, `*`, `.`, integers `[+-]?[0-9]+`, double-quoted strings without
+`"` and `\\`, dates spelled `YYYY-MM-DD`, identifiers `[a-zA-Z][-_a-zA-Z0-9]*` that are not
+keyword-prefixed and do not start with a month name, qualified identifiers — rendered with one space
+after each token, where a date is followed by nothing or by a token that does not start with `(` or
+a digit, the lexer model (twenty ordered classes, first match wins; tied to `_TSQLLexer` by the
+correspondence run) returns exactly that token list. -/
+theorem lex_render (ts : List LTok) (n : Nat) (hn : ts.length < n)
+    (hp : ∀ t ∈ ts, printable t = true) (hs : seqOK ts = true) :
+    lexLine n (render ts) = .ok ts :=
+  lexLine_render ts n hn hp hs
+
+/-- characters to query: if the lexical tokens `lts` spell the printed query (`toTok`, with `int()`
+and `tsdb.cast` as parameters), then lexing their rendering and parsing the result returns the
+query. -/
+theorem lex_then_parse (iv : List Char → Int) (dv : List Char → Option Nat) (lts : List LTok)
+    (hp : ∀ t ∈ lts, printable t = true) (hs : seqOK lts = true)
+    (proj : Proj) (rels : List String) (ws : List (Cond ColRef))
+    (hq : lts.map (toTok iv dv) = printQuery proj rels ws)
+    (hproj : ProjOK proj rels) (hw : ∀ w ∈ ws, nf w = true) :
+    ∃ toks, lexLine (lts.length + 1) (render lts) = .ok toks ∧
+      parseSelect (3 * lts.length) (toks.map (toTok iv dv))
+        = .ok { proj := proj, rels := rels, cond := whereCond ws } := by
+  refine ⟨lts, lex_render lts _ (Nat.lt_succ_self _) hp hs, ?_⟩
+  rw [hq]
+  apply parse_print_select proj rels ws hproj hw
+  rw [← hq, List.length_map]
+  exact Nat.le_refl _
+
+/-- the alphabet is inhabited: `i-id < 5 and ( item.i-input ~ "o" or i-date >= 2020-01-01 ) .` -/
+example :
+    let ts : List LTok := [.id ['i','-','i','d'], .fix (.op .lt), .int ['5'], .fix .and_, .fix .lparen,
+      .qid ['i','t','e','m'] ['i','-','i','n','p','u','t'], .fix (.op .re), .str ['o'], .fix .or_,
+      .id ['i','-','d','a','t','e'], .fix (.op .ge), .ymd ['2','0','2','0','-','0','1','-','0','1'],
+      .fix .rparen, .fix .dot]
+    (∀ t ∈ ts, printable t = true) ∧ seqOK ts = true := by decide
+
 /-- `where c₁ where c₂ …` means `and [c₁, c₂, …]` -/
 theorem where_where_is_conjunction (c1 c2 : Cond ColRef) (cs : List (Cond ColRef)) :
     whereCond (c1 :: c2 :: cs) = some (.and (c1 :: c2 :: cs)) := rfl
